@@ -26,7 +26,8 @@ theorem oneLive_of_invB {s : State} (h : InvB s) : OneLive s := by
   · rcases vp with vp | vp <;> simp_all
   · rw [hvi] at hvj; exact Option.some.inj hvj
 
-theorem handedOut_of_invB {s : State} (h : InvB s) : HandedOutLoaded s := h.ret
+theorem handedOut_of_invB {s : State} (h : InvB s) : HandedOutLoaded s :=
+  fun t ht i => ⟨(h.thr t ht).ret_val i, fun l => (h.thr t ht).ret_objs l i⟩
 
 theorem noDoubleClose_of_invB {s : State} (h : InvB s) : NoDoubleClose s := by
   intro i hi
@@ -44,7 +45,8 @@ theorem noneOpen_of_inv {s : State} (hb : InvB s) (hd : InvD s) : NoneOpenAfterC
     have o := (hb.ins i hi).owned hal
     exact absurd o.2.1 (hm _ o.1)
 
-theorem removedNotReturned_of_invC {s : State} (h : InvC s) : RemovedNotReturned s := h.ret_fresh
+theorem removedNotReturned_of_invC {s : State} (h : InvC s) : RemovedNotReturned s :=
+  fun t ht i => ⟨(h.thr t ht).ret_val i, fun l => (h.thr t ht).ret_objs l i⟩
 
 /-! ### enabledness and deadlock freedom -/
 
@@ -217,6 +219,6 @@ theorem invA_init : InvA init := by
   · rfl
 
 theorem inv_init : Inv init := by
-  refine ⟨invA_init, ⟨?_, ?_, ?_⟩, ⟨?_, ?_, ?_⟩, ⟨?_, ?_⟩⟩ <;> intros <;> simp_all [init]
+  refine ⟨invA_init, ⟨?_, ?_, ?_⟩, ⟨?_⟩, ⟨?_, ?_⟩⟩ <;> intros <;> simp_all [init]
 
 end AnySync.OCache
